@@ -8,6 +8,26 @@ INF_POS = [2**31, 2**62, 2**63 - 1]
 INF_NEG = ["(0-2147483648)", "(0-4611686018427387904)", "(0-9223372036854775807-1)"]
 ASCII = "abcdefgh"
 MULTI = "aé漢\U0001F600ßzÿあ"
+BOUND = "~\x7f\x80\xff\u0100\u07ff\u0800\U00010000"      # code points at the edges of the ASCII / 2- / 3- / 4-byte ranges (DEL among them)
+CHARS = {"ascii": ASCII, "multi": MULTI, "bound": BOUND}
+
+
+def goquote(s):
+    """the worker renders a str with Go's strconv.Quote"""
+    out = []
+    for ch in s:
+        o = ord(ch)
+        if ch in '"\\':
+            out.append("\\" + ch)
+        elif 0x20 <= o < 0x7f:
+            out.append(ch)
+        elif o < 0x20 or o == 0x7f:
+            out.append("\\x%02x" % o)
+        elif o < 0xa0 or o in (0xad,):
+            out.append("\\u%04x" % o)
+        else:
+            out.append(ch)
+    return '"' + "".join(out) + '"'
 
 
 def lit(v, j):
@@ -27,7 +47,7 @@ def quote(s):
 def recv_src(kind, n):
     if kind == "arr":
         return "[" + ", ".join(str(10 + i) for i in range(n)) + "]"
-    return quote((ASCII if kind == "ascii" else MULTI)[:n])
+    return quote(CHARS[kind][:n])
 
 
 def expected(kind, n, case):
@@ -36,13 +56,13 @@ def expected(kind, n, case):
         p = pos[0]
         if p < 0:
             return "val:nil"
-        return "val:" + (str(10 + p) if kind == "arr" else quote((ASCII if kind == "ascii" else MULTI)[p]))
+        return "val:" + (str(10 + p) if kind == "arr" else goquote(CHARS[kind][p]))
     if case["c"] == 0:
         return "err:ValueErr"
     if kind == "arr":
         return "val:[" + ", ".join(str(10 + p) for p in pos) + "]"
-    chars = ASCII if kind == "ascii" else MULTI
-    return "val:" + quote("".join(chars[p] for p in pos))
+    chars = CHARS[kind]
+    return "val:" + goquote("".join(chars[p] for p in pos))
 
 
 def cls(v, n):
@@ -96,7 +116,7 @@ def run():
     reqs, meta = [], {}
     for ci, case in enumerate(cases):
         infs = [v for v in (case["a"], case["b"], case["c"]) if v in (PINF, NINF)]
-        for kind in ("arr", "ascii", "multi"):
+        for kind in ("arr", "ascii", "multi", "bound"):
             for j in (range(3) if infs else range(1)):
                 form = 0
                 h = (ci * 7 + j) % 40
